@@ -7,6 +7,7 @@ import (
 	"strconv"
 	"strings"
 	"sync"
+	"time"
 
 	"github.com/sirupsen/logrus"
 	"github.com/spali/go-rscp/rscp"
@@ -27,7 +28,54 @@ func (g *gen) secret() string {
 	for i := range b {
 		b[i] = al[g.pick(len(al))]
 	}
+	if g.chance(0.4) {
+		// a pass phrase: words separated by blanks, tabs, line breaks, with quotes, backslashes, non-ASCII letters
+		seps := []string{" ", " ", "\t", "\n", "\"", "\\", "ä", " \x01"}
+		out := ""
+		for k := 0; k < 1+g.pick(3) && len(b) > 1; k++ {
+			i := 1 + g.pick(len(b)-1)
+			out += string(b[:i]) + seps[g.pick(len(seps))]
+			b = b[i:]
+		}
+		return "S3c" + out + string(b)
+	}
 	return "S3c" + string(b)
+}
+
+// secretForms: the ways a secret can show up in a text: itself, Go-quoted, and its longest run of letters and
+// digits (at least 6 of them)
+func secretForms(secret string) []string {
+	forms := []string{secret}
+	if q := strconv.Quote(secret); q[1:len(q)-1] != secret {
+		forms = append(forms, q[1:len(q)-1])
+	}
+	if q := strconv.QuoteToASCII(secret); q[1:len(q)-1] != secret {
+		forms = append(forms, q[1:len(q)-1])
+	}
+	best, cur := "", ""
+	for _, r := range secret + " " {
+		if r < 128 && (r >= '0' && r <= '9' || r >= 'a' && r <= 'z' || r >= 'A' && r <= 'Z') {
+			cur += string(r)
+		} else {
+			if len(cur) > len(best) {
+				best = cur
+			}
+			cur = ""
+		}
+	}
+	if len(best) >= 6 && best != secret {
+		forms = append(forms, best)
+	}
+	return forms
+}
+
+func containsAnyForm(text, secret string) bool {
+	for _, f := range secretForms(secret) {
+		if strings.Contains(text, f) {
+			return true
+		}
+	}
+	return false
 }
 
 // simple-leaf messages (what the model can print without a model of fmt): strings, small unsigned numbers, bools, nil
@@ -82,20 +130,30 @@ var dumpRe = regexp.MustCompile(`\[\]byte\{([^}]*)\}`)
 
 // containsSecret looks for the secret as text and inside every `[]byte{0x.., …}` dump of the log
 func containsSecret(log string, secret string) string {
-	if strings.Contains(log, secret) {
+	if containsAnyForm(log, secret) {
 		return "as text"
 	}
-	for _, m := range dumpRe.FindAllStringSubmatch(log, -1) {
-		var bs []byte
-		for _, f := range strings.Split(m[1], ",") {
-			f = strings.TrimSpace(f)
-			if v, err := strconv.ParseUint(strings.TrimPrefix(f, "0x"), 16, 8); err == nil {
-				bs = append(bs, byte(v))
+	received := false
+	for _, line := range strings.Split(log, "\n") {
+		for _, m := range dumpRe.FindAllStringSubmatch(line, -1) {
+			var bs []byte
+			for _, f := range strings.Split(m[1], ",") {
+				f = strings.TrimSpace(f)
+				if v, err := strconv.ParseUint(strings.TrimPrefix(f, "0x"), 16, 8); err == nil {
+					bs = append(bs, byte(v))
+				}
+			}
+			if containsAnyForm(string(bs), secret) {
+				if strings.Contains(line, "read plain") {
+					received = true // what the peer sent
+					continue
+				}
+				return "inside a dump of frame bytes"
 			}
 		}
-		if bytes.Contains(bs, []byte(secret)) {
-			return "inside a dump of frame bytes"
-		}
+	}
+	if received {
+		return "inside a dump of RECEIVED frame bytes"
 	}
 	return ""
 }
@@ -142,6 +200,11 @@ func logSession(level int, password string, scenario int, extraSecret string) (l
 			return [][]byte{enc(g)}
 		case scenario == 3 && k == 0: // silence
 			return nil
+		case scenario == 4 && k == 0: // an echoing peer: the authentication request comes back as the "reply"
+			echo := plainFrame([]rscp.Message{{Tag: rscp.RSCP_REQ_AUTHENTICATION, DataType: rscp.Container, Value: []rscp.Message{
+				{Tag: rscp.RSCP_AUTHENTICATION_USER, DataType: rscp.CString, Value: "loguser"},
+				{Tag: rscp.RSCP_AUTHENTICATION_PASSWORD, DataType: rscp.CString, Value: password}}}}, true, time.Unix(1, 2))
+			return [][]byte{enc(echo)}
 		}
 		auths := 1
 		if scenario == 1 {
@@ -167,7 +230,7 @@ func logSession(level int, password string, scenario int, extraSecret string) (l
 			if err == nil {
 				return "ok"
 			}
-			s = "err"
+			s = "err " + err.Error() // what a caller (the e3dc command) prints
 			if scenario != 1 {
 				break
 			}
@@ -191,13 +254,13 @@ func init() {
 			prop := "pass"
 			txt := fmt.Sprintf("%s", ms)
 			for _, s := range secrets {
-				if strings.Contains(txt, s) {
+				if containsAnyForm(txt, s) {
 					prop = "FAIL C11 the value of a secret tag is not masked in the rendered text"
 				}
 			}
 			for _, alt := range []string{fmt.Sprintf("%v", ms), fmt.Sprintf("%+v", ms)} {
 				for _, s := range secrets {
-					if strings.Contains(alt, s) {
+					if containsAnyForm(alt, s) {
 						prop = "FAIL C11 the value of a secret tag is not masked under %v / %+v"
 					}
 				}
@@ -205,7 +268,7 @@ func init() {
 			if len(ms) > 0 {
 				one := fmt.Sprintf("%s|%v|%+v", ms[0], ms[0], &ms[0])
 				for _, s := range secrets {
-					if strings.Contains(one, s) {
+					if containsAnyForm(one, s) {
 						prop = "FAIL C11 the value of a secret tag is not masked when one message is formatted"
 					}
 				}
@@ -221,14 +284,18 @@ func init() {
 			}
 		}
 		for _, lvl := range levels {
-			for scenario := 0; scenario < 4; scenario++ {
+			for scenario := 0; scenario < 5; scenario++ {
 				pw := g.secret()
 				passphrase := g.secret()
 				log, window, wb, res := logSession(lvl, pw, scenario, passphrase)
 				prop := "pass"
-				if how := containsSecret(log, pw); how != "" {
+				if how := containsSecret(log+"\n"+res, pw); how != "" {
 					prop = fmt.Sprintf("FAIL C11 the password appears in the log %s at level %d (scenario %d)", how, lvl, scenario)
-				} else if strings.Contains(log, passphrase) {
+					if strings.Contains(how, "RECEIVED") && scenario == 4 {
+						// the peer sent the password back: recorded finding F23 (known_findings.json)
+						prop = fmt.Sprintf("FAIL C11 sig=password-reflected-by-peer a peer that echoes the authentication request gets the password into the trace dump of received bytes (level %d)", lvl)
+					}
+				} else if containsAnyForm(log, passphrase) {
 					prop = fmt.Sprintf("FAIL C11 the passphrase of a nested secret-tagged message appears as text at level %d", lvl)
 				} else if res == "panic" {
 					prop = "FAIL C11 client panics"
